@@ -99,7 +99,8 @@ def accessors(ctx, facts, cfg):
             ctx.violation('C12.a-accessor-atoms', 'some-sites', '%s has %d `Some(..)` exits, expected one' % (p, len(somes)), site=fn.span, fn=p, cfg=cfg)
             continue
         e, conds, env = somes[0]
-        atoms = [(RL.norm(c, p), pol) for c, pol in core.flatten_conds(conds, env)]
+        from .c06 import inlined_atoms
+        atoms = inlined_atoms(conds, env, facts, RL, p)
         idx = ('local', 'index')
         pos = idx if sp['base'] is None else core.norm_bin('Add', sf(sp['base']), idx)
         want = {('lt', idx, sf(sp['count']))}
@@ -132,7 +133,7 @@ def accessors(ctx, facts, cfg):
         if extra:
             problems.append('extra conditions: %s' % extra)
         # payload: &self.shards[pos].as_flattened()[..self.shard_bytes]
-        payload = RL.norm(hcanon(e['args'][0], env), p)
+        payload = RL.norm(core.inline_calls(hcanon(e['args'][0], env), facts), p)
         ptxt = repr(payload)
         want_idx = ('index', sf('shards'), pos)
         if repr(want_idx) not in ptxt:
